@@ -95,6 +95,11 @@ class World:
         self.closed_tree = None
         self.root_uid = self.ws.root.uid
         self.obj_class = {}
+        self.ws2 = None
+        self.path2 = self.path.replace(".geoh5", "_ws2.geoh5")
+        self.w2uid = {}
+        self.w2side = {}
+        self.w2pguid = {}
 
     # ------------------------------------------------------------------ binding
     def ent(self, slot):
@@ -165,6 +170,16 @@ class World:
                 kw.update(_object_kwargs(cls.__name__))
                 e = cls.create(ws, **kw)
             self.bind(s, e)
+        elif act == "CreateDeferred":
+            e = ws.create_entity(self.group_class(a["s"]), save_on_creation=False,
+                                 entity={"name": a["n"], "parent": self.ent(a["p"])})
+            self.bind(a["s"], e)
+        elif act == "ScrubData":
+            o = self.ent(a["o"])
+            ds = [self.ent(d) for d in sorted(a["ds"])]
+            if self.variant % 2:
+                ds = ds[::-1]      # the order of the list must not matter
+            o.remove_data_from_groups(ds)
         elif act == "AddData":
             o = self.ent(a["p"])
             cname = type(o).__name__
@@ -271,6 +286,16 @@ class World:
             else:
                 new = e.copy(parent=self.ent(a["p"]), copy_children=bool(a["deep"]))
             self.bind_copy(int(a["s"]), new, a, pre)
+        elif act == "Copy2":
+            self.copy2(a)
+        elif act == "Remove2":
+            y = int(a["y"])
+            e = self.w2side[y]
+            dead = [k for k, v in self.w2side.items() if _under(v, e)]
+            for k in dead:
+                self.w2side.pop(k)
+            self.ws2.remove_entity(e)
+            del e
         elif act == "Close":
             self.closed_tree = self.live_tree()
             how = a["how"]
@@ -320,6 +345,90 @@ class World:
                         self.pg2uid[pmap[ps]] = match[0].uid
 
         walk(s, new)
+
+    def ensure_ws2(self):
+        if self.ws2 is None:
+            if os.path.exists(self.path2):
+                os.remove(self.path2)
+            self.ws2 = self.Workspace.create(self.path2)
+        return self.ws2
+
+    def copy2(self, a):
+        """copy into the second workspace and bind the identifiers the model allocated there"""
+        ws2 = self.ensure_ws2()
+        src = self.ent(a["s"])
+        new = src.copy(parent=ws2.root if self.variant % 2 else ws2, copy_children=bool(a["deep"]))
+        tmap = {int(k): int(v) for k, v in _as_map(a["map"]).items()}
+        pmap = {int(k): int(v) for k, v in _as_map(a.get("pmap", {})).items()}
+
+        def rule(y, new_uid, src_uid, what):
+            gen = (y - 1000) // 100
+            if gen == 0 and new_uid != src_uid:
+                raise Divergence("copy-other-workspace-uid-not-kept",
+                                 f"{what}: the identifier {src_uid} was free in the target workspace but the copy got {new_uid}", "C06")
+            if gen == 1 and (new_uid == src_uid or new_uid in self.w2uid.values()):
+                raise Divergence("copy-other-workspace-uid-reused",
+                                 f"{what}: identifier {new_uid} is already in use in the target workspace", "C06")
+
+        def walk(src_slot, src_ent, new_ent):
+            y = tmap[src_slot]
+            rule(y, new_ent.uid, src_ent.uid, f"copy of slot {src_slot}")
+            self.w2uid[y] = new_ent.uid
+            self.w2side[y] = new_ent
+            if kind(src_slot) == "D":
+                return
+            new_kids = [c for c in new_ent.children if not _is_pg(c)]
+            wanted = [c for c in src_ent.children if not _is_pg(c) and self.slot_of(c.uid) in tmap]
+            if len(new_kids) != len(wanted):
+                raise Divergence("copy-children-count",
+                                 f"copy of slot {src_slot} has {len(new_kids)} children, expected {len(wanted)}", "C12")
+            for sc, nc in zip(wanted, new_kids):
+                walk(self.slot_of(sc.uid), sc, nc)
+            if kind(src_slot) == "O":
+                for sp in (src_ent.property_groups or []):
+                    ps = self.pgslot_of(sp.uid)
+                    if ps in pmap:
+                        match = [g for g in (new_ent.property_groups or []) if g.name == sp.name]
+                        if len(match) != 1:
+                            raise Divergence("copy-pg-missing", f"property group {sp.name} not copied once", "C12")
+                        rule(pmap[ps], match[0].uid, sp.uid, f"copy of property group {sp.name}")
+                        self.w2pguid[pmap[ps]] = match[0].uid
+
+        walk(int(a["s"]), src, new)
+
+    def project_w2(self):
+        if self.ws2 is None:
+            return {"w2": {}, "w2pg": {}}
+        snap = h5snap.snapshot(self.ws2.geoh5)
+        u2y = {str(u): y for y, u in self.w2uid.items()}
+        u2y[str(self.ws2.root.uid)] = 1000
+        p2r = {str(u): r for r, u in self.w2pguid.items()}
+        parent = {}
+        for cont in CONT:
+            for uid, node in snap["nodes"].get(cont, {}).items():
+                for lc, links in node["links"].items():
+                    for cu in links:
+                        parent.setdefault(cu, []).append(u2y.get(uid, f"?{uid}"))
+        out, pgs = {}, {}
+        for cont in CONT:
+            for uid, node in snap["nodes"].get(cont, {}).items():
+                y = u2y.get(uid, f"?{uid}")
+                if y == 1000:
+                    continue
+                val = 0
+                if cont == "Data":
+                    ds = node["datasets"].get("Data")
+                    val = self.token(ds.get("value")) if ds else None
+                par = parent.get(uid, [])
+                out[str(y)] = {"on": True, "par": par[0] if len(par) == 1 else par, "name": node["attrs"].get("Name"),
+                               "flag": bool(node["attrs"].get("Allow delete")), "val": val}
+                for pu, attrs in node["pgs"].items():
+                    props = attrs.get("Properties", [])
+                    if isinstance(props, str):
+                        props = [props]
+                    pgs[str(p2r.get(pu, f"?{pu}"))] = {"owner": y, "name": attrs.get("Group Name"),
+                                                       "props": sorted(str(u2y.get(h5snap._uid(str(x)), "?")) for x in props)}
+        return {"w2": out, "w2pg": pgs, "problems": h5snap.wellformed(snap)}
 
     def drop_dying(self, pre, post, keep=None):
         dying = [int(s) for s in pre["mem"] if pre["mem"][s]["par"] != -1 and post["mem"][s]["par"] == -1]
@@ -521,6 +630,23 @@ def expect_file(st):
     return {"fnode": fnode, "flink": flink, "fpg": fpg}
 
 
+def expect_w2(st):
+    w2 = {y: {"on": True, "par": r["par"], "name": r["name"], "flag": r["flag"],
+              "val": (r["val"] if r["val"] != 0 else None) if kind(int(y) % 100) == "D" else 0}
+          for y, r in _as_map(st.get("w2", {})).items()}
+    pgs = {r: {"owner": g["owner"], "name": g["name"], "props": sorted(str(x) for x in g["props"])}
+           for r, g in _as_map(st.get("w2pg", {})).items()}
+    return {"w2": w2, "w2pg": pgs}
+
+
+def _under(ent, top):
+    while ent is not None:
+        if ent is top:
+            return True
+        ent = getattr(ent, "parent", None)
+    return False
+
+
 def model_orphans(st):
     reach = {0}
     links = [(int(a), int(b)) for a, b in st["flink"]]
@@ -620,6 +746,17 @@ def replay_path(item):
             if d:
                 bad(f"file:{lab['act']}:{_field(d)}", f"file differs from the specification: {d}")
                 return viol
+            # ---- second workspace (target of cross-workspace copies)
+            if w.ws2 is not None:
+                got2 = w.project_w2()
+                probs2 = got2.pop("problems")
+                d = first_diff(expect_w2(post), got2)
+                if d:
+                    bad(f"other-workspace:{lab['act']}:{_field(d)}", f"target workspace differs from the specification: {d}", "C12,C06,C02")
+                    return viol
+                if probs2:
+                    bad("layout-other-workspace:" + _layout_kind(probs2[0]), f"target file is not valid: {probs2[:3]}", "C02")
+                    return viol
             # ---- live
             if post["mode"] != "closed":
                 got_l = w.project_live()
@@ -692,6 +829,23 @@ def replay_path(item):
             w.ws.close()
         except Exception:  # pylint: disable=broad-except
             pass
+        if w.ws2 is not None:
+            try:
+                w.ws2.close()
+            except Exception:  # pylint: disable=broad-except
+                pass
+            w.ws2 = None
+            w.w2side = {}
+            try:
+                os.remove(w.path2)
+            except OSError:
+                pass
+        for extra in (getattr(w, "old_path", None),):
+            if extra:
+                try:
+                    os.remove(extra)
+                except OSError:
+                    pass
         w.side = {}
         w.ws = None
         try:
